@@ -213,3 +213,58 @@ def rule_D2x(ctx, F):
     e_guard = ("call", name_ends("::is_empty"), (P.arg("out"),))
     for bi, ce2, w2 in cx + [(bi, val(fn.expr_call(t)), t.get("s")) for bi, t in nat]:
         ctx.ob(has_guard(guards_at(fn, bi), e_guard, False) is not None, "xof-empty-out-guard:%s" % ce2[1].split("::")[-2], w2, "kernel call dominated by !out.is_empty()")
+
+
+def _nonempty_guard(gs, param):
+    """a dominating guard that establishes len(param) != 0"""
+    for c, tr in gs:
+        sc = show(c) if isinstance(c, tuple) else str(c)
+        if param not in sc:
+            continue
+        if "is_empty(" in sc and tr is False:
+            return True
+        if ("len(" in sc and " Eq 0" in sc.replace("const ", "")) and tr is False:
+            return True
+        if ("len(" in sc and (" Ne 0" in sc or " Gt 0" in sc)) and tr is True:
+            return True
+    return False
+
+
+def rule_X0(ctx, F):
+    """zero-block calls of the assembled xof_many.  The assembly's precondition is derived from the object code (X0asm: does a
+    zero count reach a store?).  When it is NOT zero-safe, every path to the extern call must establish out.len() != 0: in the
+    FFI wrapper itself or at every call site of the wrapper (one level up, Platform::xof_many)."""
+    import r_asmsym
+    pre = r_asmsym.rule_X0asm(ctx)
+    unsafe_k = {k: v for k, v in pre.items() if not v[0]}
+    sites = 0
+    for path, f in sorted(F.fns.items()):
+        if not f.has_body:
+            continue
+        for bi, t in f.calls():
+            cn = callee_name(t["callee"])
+            if not cn.rsplit("::", 1)[-1].startswith("blake3_xof_many_"):
+                continue
+            sites += 1
+            sym = cn.rsplit("::", 1)[-1]
+            needs = [k for k in unsafe_k if k.startswith(sym + ":")]
+            inst = "xof-zero-blocks:%s" % sym
+            if not needs:
+                ctx.ob(True, inst, t.get("s", f.loc), "the assembled %s returns without storing for a zero count; no caller obligation" % sym)
+                continue
+            why = unsafe_k[needs[0]][1]
+            if _nonempty_guard(guards_at(f, bi), "out"):
+                ctx.ob(True, inst, t.get("s", f.loc), "guarded in the wrapper (%s)" % why)
+                continue
+            # every caller of the wrapper, one level up
+            callers = []
+            for p2, g in F.fns.items():
+                if not g.has_body:
+                    continue
+                for b2, t2 in g.calls():
+                    if callee_name(t2["callee"]) == path:
+                        callers.append((p2, g, b2, t2))
+            bad = [p2 for p2, g, b2, t2 in callers if not _nonempty_guard(guards_at(g, b2), "out")]
+            ctx.ob(bool(callers) and not bad, inst, t.get("s", f.loc),
+                   "%s ; callers of %s: %s%s" % (why, path, [c[0] for c in callers], " -- without an out.is_empty() / len != 0 guard: %s" % bad if bad else " all guard against an empty `out`"))
+    ctx.info("extern xof_many call sites: %d" % sites)
